@@ -532,6 +532,41 @@ def r02_16(run, model):
         raise AnalysisIncomplete("dce_block_with_live: filter on the type-switch binding not found")
 
 
+def r02_18(run, model):
+    run.rule("R02.18", "Go rejects a type-switch binding that no clause uses, and inside the clauses of `switch x := x.(type)` the binding "
+                       "shadows the variable of the same name: the live set Go DCE hands to the clause blocks therefore has the binding's name "
+                       "taken out (a use of x after the switch is not a use of the binding), so that the decision to keep the binding sees "
+                       "only uses inside the clauses")
+    DCE = "crates/compiler/src/go/dce.rs"
+    f = model.fn("dce_block_with_live", DCE)
+    arm = None
+    for m in S.find(f.body, "Match"):
+        for a in m["arms"]:
+            if "SwitchType" in S.norm_ws(run.facts.text(DCE, a["pat"]["sp"])):
+                arm = a
+    if arm is None:
+        raise AnalysisIncomplete("dce_block_with_live: SwitchType arm not found")
+    from rules import c07
+    calls = [c for c in S.walk(arm["body"]) if c["k"] == "Call" and S.callee_name(c) == f.name and len(c["args"]) >= 2]
+    if not calls:
+        raise AnalysisIncomplete("SwitchType arm: recursive calls for the clause blocks not found")
+    for i, c in enumerate(calls, 1):
+        a = c["args"][1]
+        chain = [S.norm_ws(run.facts.text(DCE, a["sp"]))]
+        for idn in S.idents(a):
+            chain += c07._origin_chain(run, f, DCE, c, idn, depth=2)
+        removed = False
+        names = {x for x in S.idents(a)}
+        for r in S.walk(arm["body"]):
+            if r["k"] == "MethodCall" and r["method"] == "remove" and r["recv"]["k"] == "Path" and r["recv"]["segs"][0] in names:
+                removed = True
+        raw = re.fullmatch(r"&?live", chain[0]) is not None
+        run.ob("R02.18", f"dce_block_with_live|clause block #{i} is analysed without the binding's outer liveness", removed and not raw, site(DCE, c["sp"]),
+               f"live set passed: {' <- '.join(chain)[:100]}; binding name removed from it: {removed}",
+               witness="let a = match s { Dot => 1, Circle(_) => 2 }; a + show(s): `switch s := s.(type)` keeps a binding no clause reads, "
+                       "Go: s declared and not used")
+
+
 def run(run, model):
     run.try_rule(r02_1, model)
     run.try_rule(r02_2, model)
@@ -546,6 +581,7 @@ def run(run, model):
     run.try_rule(r02_14, model)
     run.try_rule(r02_15, model)
     run.try_rule(r02_16, model)
+    run.try_rule(r02_18, model)
     from rules import c08 as _c08
     run.rule("R02.17", "no function that is still mentioned is pruned (shared with C08 R08.14): a dangling function name is an undeclared identifier in Go")
     run.try_rule(_c08.r08_14, model)
